@@ -74,7 +74,7 @@ SITE_ARGS = {
     "canon": (1,), "gate1": (1,), "gate2": (2, 3), "swap": (1, 2), "svals": (1,), "compress_site": (1,), "expec_canon": (1,),
     "shift": (1, 2), "auto_swap_noback": (1, 2), "gate3": (2,), "nonlocal_method": (2, 3), "submpo": (1,), "swap_to": (1, 2),
     "schmidt": (1,), "entropy": (1,), "schmidt_gap": (1,), "bipartite": (1,), "magnetization": (1,), "ptr_canon": (1,),
-    "measure": (1,), "measure_seed": (1,), "measure_get_outcome": (1,),
+    "measure": (1,), "measure_seed": (1,), "measure_get_outcome": (1,), "measure_get_outcome_inplace": (1,), "gate1_nonunitary": (1,),
 }
 
 
@@ -214,6 +214,13 @@ class C08Case(seq.Case):
             ev.append(("expec_canon", (2, 0)))
             for s in (0, L - 1):
                 ev.append(("measure_get_outcome", s, 7))
+                # in-place spelling: the state's centre really moves
+                ev.append(("measure_get_outcome_inplace", s, 7))
+            # a NON-unitary one-site operator (projector-like / imaginary time
+            # step): the API cannot know, so the caller drops the record - but
+            # any isometry flag on that tensor must be cleared by the library
+            for i in range(L):
+                ev.append(("gate1_nonunitary", i))
             ev.append(("compute_expec_canon",))
             for s in range(L):
                 for oc in (0, 1):
@@ -392,6 +399,15 @@ class C08Case(seq.Case):
             out = psi.measure(e[1], get="outcome", seed=e[2], info=info)
             p0 = np.take(w.vec.reshape(dims), int(out), axis=e[1])
             obs = (int(out), float(np.vdot(p0, p0).real / np.vdot(w.vec, w.vec).real))
+        elif k == "measure_get_outcome_inplace":
+            out = psi.measure_(e[1], get="outcome", seed=e[2], info=info)
+            p0 = np.take(w.vec.reshape(dims), int(out), axis=e[1])
+            obs = (int(out), float(np.vdot(p0, p0).real / np.vdot(w.vec, w.vec).real))
+        elif k == "gate1_nonunitary":
+            G = fill("generic", (dims[e[1]], dims[e[1]]), self.dtype, key=("c08nu", dims[e[1]], e[1]))
+            psi.gate_(G, e[1], contract=True, info=info)
+            w.vec = ref.apply_op(G, w.vec, dims, [e[1]])
+            info.clear()  # the caller must drop the record after a non-unitary gate
         elif k == "measure_seed":
             s, sd = e[1], e[2]
             out, _ = psi.measure_(s, seed=sd, info=info)
@@ -533,7 +549,7 @@ class C08Case(seq.Case):
             want = ref.ptrace(v, dims, list(e[1])) / nrm2
             if obs.shape != want.shape or ref.relerr(obs, want) > 1e-8:
                 return "reduced density matrix differs from the dense partial trace (relerr %.2e)" % (ref.relerr(obs, want) if obs.shape == want.shape else float("inf"))
-        elif k in ("measure", "measure_seed", "measure_get_outcome"):
+        elif k in ("measure", "measure_seed", "measure_get_outcome", "measure_get_outcome_inplace"):
             out, p = obs
             if k == "measure" and out != e[2]:
                 return "outcome %r but %r was requested" % (out, e[2])
